@@ -39,7 +39,7 @@ var externWritesArg = map[string]int{
 	"(encoding/binary.bigEndian).PutUint16": 1, "(encoding/binary.bigEndian).PutUint32": 1, "(encoding/binary.bigEndian).PutUint64": 1,
 	"(*strings.Builder).WriteString": 0, "(*strings.Builder).WriteByte": 0, "(*strings.Builder).Write": 0, "(*strings.Builder).WriteRune": 0,
 	"(*strings.Builder).Grow": 0, "(*strings.Builder).Reset": 0,
-	"(*bytes.Buffer).WriteString": 0, "(*bytes.Buffer).WriteByte": 0, "(*bytes.Buffer).Write": 0,
+	"(*bytes.Buffer).WriteString": 0, "(*bytes.Buffer).WriteByte": 0, "(*bytes.Buffer).Write": 0, "(*bytes.Buffer).Grow": 0,
 }
 
 var fmtWriterFuncs = map[string]bool{"fmt.Fprintf": true, "fmt.Fprint": true, "fmt.Fprintln": true}
